@@ -18,6 +18,47 @@ def step_check(proj, i, obs):
     return out
 
 
+def midrun_world():
+    """NOT part of the plan: C01 excludes histories in which a source is edited while a run is in progress, and what
+    this world shows on the unchanged tree (dependents that were checked or built earlier in the same run never notice a
+    target rebuilt later in that run: run ids are the only clock) is a consequence of exactly such an edit.  Kept for
+    experiments (dev use): `midrun_world()` + `midrun_check`.
+    A source edited WHILE a run is under way (by the user; here the driver script does it between two of its commands).
+    The run in which that happens is not judged (the property speaks of what was there when the command started); the
+    commands AFTER it are: whatever the interrupted-by-an-edit run left behind, the next redo-ifchange brings every
+    target up to date.  The interesting orders: a target found clean, then the edit, then a forced `redo` of it."""
+    from ..worlds import S, World
+    E = ("uedit", ("s", "1"))
+    D = ("udovar", ("c.do", "1"))
+    seqs = [[("ifchange", ("c",)), E, ("redo", ("c",)), ("ifchange", ("dd",))],
+            [("ifchange", ("dd",)), E, ("redo", ("c",))],
+            [("ifchange", ("c",)), E, ("redo", ("c",))],
+            [("ifchange", ("dd",)), E, ("ifchange", ("dd",))],
+            [E, ("redo", ("c",)), ("ifchange", ("dd",))],
+            # ... and the same with the rule's script replaced instead (redo re-stamps a script whenever it runs it)
+            [("ifchange", ("c",)), D, ("redo", ("c",)), ("ifchange", ("dd",))],
+            [("ifchange", ("dd",)), D, ("redo", ("c",))],
+            [("ifchange", ("c",)), D, ("redo", ("c",))],
+            [("ifchange", ("dd",)), D, ("ifchange", ("dd",))],
+            [D, ("redo", ("c",)), ("ifchange", ("dd",))]]
+    w = World("midrun-edit", {"s": ["0", "1"], "u": ["5", "6"]},
+              {"c.do": [S(deps=["s"]), S(deps=["u"], tag="v2")], "dd.do": [S(deps=["c"], out="file")],
+               "driver.do": [S(seq=seq, tag="seq%d" % i) for i, seq in enumerate(seqs)]},
+              ["driver", "dd", "c"], ["driver", "dd"])
+    hs = []
+    for k in range(len(seqs)):
+        hs.append([["ifchange", ["dd"]], ["dovar", "driver.do", k], ["redo", ["driver"]], ["ifchange", ["dd"]], ["ifchange", ["dd"]]])
+        hs.append([["dovar", "driver.do", k], ["redo", ["driver"]], ["ifchange", ["dd"]], ["edit", "s", "0"], ["ifchange", ["dd"]]])
+    return w, hs
+
+
+def midrun_check(proj, i, obs):
+    op = obs["op"]
+    if op[0] == "redo" and op[1] == ["driver"]:
+        return [e1prop.stat("runs-with-an-edit-under-way (not judged themselves)")]
+    return step_check(proj, i, obs)
+
+
 def alphabet(world, h):
     return e1prop.std_alphabet(world, h)
 
@@ -44,7 +85,7 @@ def plan(tier):
 
 def main(tier):
     return e1prop.run_property(
-        PID, tier, plan(tier), "rv.props.c01",
+        PID, tier, plan(tier), "rv.props.c01", check_names={"midrun-edit": "midrun_check"},
         rule="BFS over all histories <= depth d of {redo-ifchange t, redo t, edit source to each other value, touch, "
              "rm target, switch .do variant; in some worlds also: redo-ifchange interrupted by a kill of the whole tree at a script boundary (every target x every position of its script; at most one kill per history)} per world, replayed on the real binary; states deduplicated by canonical "
              "key (files + Files/Deps rows with run ids rank-abstracted + reference-model summary); oracle: after every "
@@ -58,8 +99,9 @@ def replay(path):
     doc = json.load(open(path))
     W = dict(worlds.curated())
     W.update(worlds.generated())
+    W["midrun-edit"] = midrun_world()[0]
     bindir = common.build_subject()
-    key, viols, summ = replay_history(W[doc["world"]], doc["history"], step_check, bindir=bindir)
+    key, viols, summ = replay_history(W[doc["world"]], doc["history"], midrun_check if doc["world"] == "midrun-edit" else step_check, bindir=bindir)
     common.cleanup_scratch()
     bad = [(i, s, d) for i, s, d in viols if s.get("kind") != "__stat__"]
     for s in summ:
